@@ -43,7 +43,7 @@ def snapshot(h):
         "n_hist": len(sim.event_history),
         "energies": {k: ev.energy_delivered for k, ev in h.evs.items()},
         "occ": {sid: (h.net.get_ev(sid).session_id if h.net.get_ev(sid) is not None else None) for sid in h.net.station_ids},
-        "evse_pilots": {sid: h.net.evse_objs[sid].current_pilot for sid in h.net.station_ids},
+        "evse_pilots": {sid: h.evses[sid].current_pilot for sid in h.net.station_ids},
         "queue_len": len(sim.event_queue),
         "schedule_history": None if sim.schedule_history is None else sorted(sim.schedule_history),
     }
